@@ -143,6 +143,10 @@ def build_harness(protocol_only_ok=False):
 def run_hv(args, timeout=3600, stdin=None, env_extra=None):
     """Run the harness binary; returns (rc, stdout, stderr)."""
     env = dict(os.environ)
+    # scratch directories of the harness live under work/, not under /tmp (a killed run leaves them behind)
+    tmp = os.path.join(WORK, "tmp")
+    os.makedirs(tmp, exist_ok=True)
+    env["TMPDIR"] = tmp
     if env_extra:
         env.update(env_extra)
     p = subprocess.run([HV] + [str(a) for a in args], stdout=subprocess.PIPE,
